@@ -20,7 +20,7 @@ let result_of_code = function
 
 let code r = tok_of_n (result_code r)
 
-let eval inp obs =
+let eval_one inp obs =
   (* VN<mask>: bit 1 = Checkers.Basiccheck nil, bit 2 = Checkers.Parentscheck nil (both are empty
      structs whose methods never touch the receiver: same answers), bit 4 = the Reader returns nil
      validators (model: validate_opt ... None; code 12 = the nil dereference) *)
@@ -68,9 +68,37 @@ let eval inp obs =
                    | None -> Some false)
       | [] -> Some false) in
     let model_spec_ok = (match spec_on m_all with Some b -> b | None -> true) in
-    { default_verdict with model_obs; spec_ok; model_spec_ok;
+    ({ default_verdict with model_obs; spec_ok; model_spec_ok;
       nontrivial = true;
-      note = (if consistent then "" else "(parents_of does not hold: general verdict only)") }
+      note = (if consistent then "" else "(parents_of does not hold: general verdict only)") },
+     (({ r_epoch = cur; r_vals = vals }, e), ps))
   | _ -> failwith "bad case"
+
+
+let rec take k l = if k <= 0 then [] else match l with x :: r -> x :: take (k - 1) r | [] -> []
+let rec drop k l = if k <= 0 then l else match l with _ :: r -> drop (k - 1) r | [] -> []
+
+(* VH ; V.. ; V.. : a history over ONE Checkers object with a mutable Reader.  The combined answers of
+   the model come from the extracted [run_history] (C13_history_pointwise); the per-step verdicts are
+   the single-call ones. *)
+let eval inp obs =
+  match inp with
+  | "VH" :: rest ->
+    let steps = List.filter (fun l -> l <> []) (split_on ";" rest) in
+    let rec go steps obs = match steps with
+      | [] -> []
+      | st :: r -> let o = take 4 obs in (eval_one st o, o) :: go r (drop 4 obs) in
+    let rs = go steps obs in
+    let hist = List.map (fun ((_, h), _) -> h) rs in
+    let alls = run_history () hist in
+    let model_obs = List.concat (List.map2 (fun ((v, _), _) a ->
+        (match v.model_obs with _ :: tl -> code a :: tl | [] -> [])) rs alls) in
+    let spec_ok =
+      if List.length obs <> 4 * List.length steps then Some false
+      else Some (List.for_all (fun ((v, _), _) -> v.spec_ok <> Some false) rs) in
+    { default_verdict with model_obs; spec_ok;
+      model_spec_ok = List.for_all (fun ((v, _), _) -> v.model_spec_ok) rs;
+      nontrivial = List.length steps > 1 }
+  | _ -> fst (eval_one inp obs)
 
 let () = run eval
